@@ -156,6 +156,12 @@ def run_case(case, trace_lines=True):
         vals = [srcval(i) for i in range(n)]
         if case.get('src') == 'dict' or case.get('with_key'):
             ds = lazy_dataset.new({key_of(i): v for i, v in enumerate(vals)})
+        elif case.get('src') == 'keyzip_sel' and n >= 1:
+            # a keyed selection zipped by key with its parent: worker threads make the FIRST key lookups on the fresh
+            # selection concurrently (whatever it builds lazily is built under contention)
+            base = lazy_dataset.new({key_of(i): v for i, v in enumerate(vals)})
+            sel = base[[key_of(i) for i in range(n)]]
+            ds = base.key_zip(sel).map(lambda t: t[0])
         elif case.get('src') == 'concat' and n >= 2:
             h = max(1, n // 3)
             parts = [lazy_dataset.new(vals[:h]), lazy_dataset.new(vals[h:n - 1]), lazy_dataset.new(vals[n - 1:])]
@@ -600,8 +606,10 @@ def st_case(draw, profile):
             for k in ('with_key', 'src', 'dual', 'copy', 'src_none', 'shuffled', 'catch'):
                 case.pop(k, None)
     if profile == 'plain' and kind in ('pf', 'pm') and n >= 2 and 'with_key' not in case and draw(st.integers(0, 3)) == 0:
-        case['src'] = 'concat'
-        case['trace_core'] = draw(st.booleans())
+        case['src'] = draw(st.sampled_from(['concat', 'keyzip_sel']))
+        case['trace_core'] = draw(st.booleans()) or case['src'] == 'keyzip_sel'
+        if case['src'] == 'keyzip_sel':
+            case.pop('src_none', None)
     if profile == 'plain' and kind == 'pf' and n >= 2 and draw(st.integers(0, 3)) == 0:
         # a seeded per-epoch reshuffle below the prefetch, several epochs over the same object
         case['shuffled'] = draw(st.integers(1, 99))
